@@ -34,6 +34,7 @@ def prefix_stream(ctx):
         rs = rng.choice([1, 3, 20])
         jobs.append({"history": small_history(rng, rs, 7 if quick else 10), "stride": 41 if quick else 1})
     data = []
+    jobs = streams.replay_override(ctx, "history", jobs, lambda h: {"history": h, "stride": 1 if len(json.dumps(h)) < 4000 else 41})
     for j in jobs:
         out, rc, err = run_prefix_job(j)
         data.append(dict(job=j, out=out, rc=rc, err=err))
